@@ -465,6 +465,25 @@ theorem clip_per_module_violates :
     C16E.clipModules .mainOnly 4 [[6], [2]] = [[4], [2]] := by
   decide
 
+/-! ## parameters without a gradient in a window are skipped (`zero_grad` sets `.grad` to `None`) -/
+
+/-- **A parameter that receives no gradient in a window is not touched by the step** — for every well-formed list of
+`zero_grad` forms of the loop body (`Bridge/C16.lean : zero_forms_wf`) the optimiser sees `None` for it, and a `None`
+gradient leaves parameter and optimiser state alone, whatever its momentum buffer holds. -/
+theorem idle_parameter_skipped (forms : List C16E.ZeroForm) (h : C16E.wfZero forms = true) (lr θ buf : Int) :
+    ∀ f ∈ forms, C16E.momStep lr θ buf (C16E.idleGrad f) = (θ, buf) := by
+  intro f hf
+  have : f = .toNone := by
+    simp only [C16E.wfZero, Bool.and_eq_true, List.all_eq_true, beq_iff_eq] at h
+    exact h.1 f hf
+  subst this; rfl
+
+/-- regression witness (seeded C16-11): `zero_grad(set_to_none=False)` — an idle parameter with momentum buffer 4 at
+`θ = 10`, lr 1: skipped under `None`, moved to 8 (buffer 2) under a zero gradient -/
+theorem zero_grad_to_zero_violates :
+    C16E.momStep 1 10 4 (C16E.idleGrad .toNone) = (10, 4) ∧ C16E.momStep 1 10 4 (C16E.idleGrad .toZero) = (8, 2) ∧
+    C16E.wfZero [.toNone, .toZero] = false := by decide
+
 /-! ## mixed precision: the GradScaler protocol of the step branch -/
 
 /-- the scaler operations on a ℚ-module of gradients: `unscale_` multiplies by `1/S` -/
